@@ -321,8 +321,13 @@ def work(unit, tier):
             batch([""])
         else:
             rest = max(0, n - len(prefix))
-            gen = (S.join(prefix + t) for k in range(rest + 1) for t in itertools.product(alphabet, repeat=k))
-            batch(gen)
+            # probe creation / activation (two fresh worlds per string) up to the quick bound of the
+            # alphabet; longer strings go through parse() and select() only
+            deep_len = 3 if alpha == "FULL" else 4
+            short = (S.join(prefix + t) for k in range(rest + 1) for t in itertools.product(alphabet, repeat=k) if len(prefix) + k <= deep_len)
+            batch(short, deep=True)
+            long_ = (S.join(prefix + t) for k in range(rest + 1) for t in itertools.product(alphabet, repeat=k) if len(prefix) + k > deep_len)
+            batch(long_, deep=False)
     elif kind == "value":
         _, pre, prefix, n = unit
         suf = VALUE_SUFFIX.get(pre, "")
